@@ -61,6 +61,19 @@ def dedupe_group_names(pattern: str) -> Tuple[str, Dict[str, List[str]]]:
     return _re.sub(r"\(\?P<([A-Za-z_][A-Za-z0-9_]*)>", repl, pattern), copies
 
 
+def _len_of_set_over(test: ast.AST, base: str) -> bool:
+    """`len(set(<projection> for .. in base)) == 1` (or the set-comprehension spelling)"""
+    if not (isinstance(test, ast.Compare) and len(test.ops) == 1 and isinstance(test.ops[0], ast.Eq) and isinstance(test.comparators[0], ast.Constant)
+            and test.comparators[0].value == 1 and isinstance(test.left, ast.Call) and dotted(test.left.func) == "len" and len(test.left.args) == 1):
+        return False
+    a = test.left.args[0]
+    if isinstance(a, ast.Call) and dotted(a.func) == "set" and a.args:
+        a = a.args[0]
+    if isinstance(a, (ast.SetComp, ast.GeneratorExp, ast.ListComp)) and len(a.generators) == 1 and not a.generators[0].ifs:
+        return norm(a.generators[0].iter) == base
+    return False
+
+
 class Regexes:
     """pattern constants of eyecite.regexes (materialised) with group info."""
 
@@ -556,13 +569,23 @@ class C04:
             cur = s
             while cur is not fn:
                 par = cur.parent
-                if isinstance(par, ast.If) and cur in par.body and f" in {base}))) == 1" in norm(par.test):
+                if isinstance(par, ast.If) and cur in par.body and _len_of_set_over(par.test, base):
                     return True
                 cur = par
             return False
-        if q == "tokenizers.token_is_from_nominative_reporter" and bt == "token.variation_editions":
-            ok, _ = self.source_table_agreement()  # every citation extractor has >= 1 edition, so if exact is empty variation is not
-            return ok
+        if q == "tokenizers.token_is_from_nominative_reporter":
+            # every citation extractor has >= 1 edition, so if exact is empty variation is not: `variation[0]` on the else side of an
+            # exact-editions test, or `(exact or variation)[0]` through a local
+            both = bt.endswith(".variation_editions")
+            if isinstance(s.value, ast.Name):
+                ds = [x.value for x in stmts_local(fn.body) if isinstance(x, ast.Assign) and norm(x.targets[0]) == bt]
+                both = bool(ds) and ((len(ds) == 1 and isinstance(ds[0], ast.BoolOp) and isinstance(ds[0].op, ast.Or) and len(ds[0].values) == 2
+                                      and norm(ds[0].values[0]).endswith(".exact_editions") and norm(ds[0].values[1]).endswith(".variation_editions"))
+                                     or (len(ds) == 2 and {norm(d).split(".")[-1] for d in ds} == {"exact_editions", "variation_editions"}))
+            if both:
+                ok, _ = self.source_table_agreement()
+                return ok
+            return False
         if q == "resolve._resolve_id_citation" and "[last_resolution]" in bt:
             return guarded(fn, s, {"last_resolution"})  # key exists with a non-empty list once a resolution was made (C06 O3)
         return False
